@@ -90,6 +90,11 @@ fn sites() -> Vec<Site> {
             let (mut server, _client) = setup_logged_in(3);
             measured(s, move || { let ok = server.verify_reconnection_attempt([1; 16], [2; 20]); (server, ok) }, |(srv, _)| srv.reconnect_challenge_data().to_vec())
         }) },
+        Site { name: "server challenge refresh after an attempt that ECHOES the challenge on offer", width: 16, direct: true, call: Box::new(|s| {
+            let (mut server, _client) = setup_logged_in(5);
+            let echo = *server.reconnect_challenge_data();
+            measured(s, move || { let ok = server.verify_reconnection_attempt(echo, [2; 20]); (server, ok) }, |(srv, _)| srv.reconnect_challenge_data().to_vec())
+        }) },
         Site { name: "client reconnect challenge (calculate_reconnect_values)", width: 16, direct: true, call: Box::new(|s| {
             let (_server, client) = setup_logged_in(4);
             measured(s, move || client.calculate_reconnect_values([7; 16]), |r| r.challenge_data.to_vec())
